@@ -16,12 +16,6 @@ Proof.
   apply andb_true_iff in H as [H He]. apply andb_true_iff in H as [Hn Hc].
   apply eqb_prop in Hn. apply N.eqb_eq in Hc. apply Z.eqb_eq in He. now subst.
 Qed.
-Lemma trunc_whole us : (us mod 1000000 =? 0)%Z = true -> trunc_s us = us.
-Proof.
-  intros H. apply Z.eqb_eq in H. apply Z.mod_divide in H; [|lia]. destruct H as [k ->].
-  unfold trunc_s. rewrite Z.quot_mul by lia. reflexivity.
-Qed.
-
 (* Element.get_attribute leaves a string alone unless it is "true" or "false" *)
 Definition not_tf (s : str) : bool := match s with c :: _ => negb ((c =? 116)%N || (c =? 102)%N) | [] => true end.
 Lemma get_attribute_str s : not_tf s = true -> get_attribute (Some s) = VStr s.
@@ -179,10 +173,9 @@ Proof.
     + cbn [firstn app]. now apply not_tf_digit.
   - now apply not_tf_digit.
 Qed.
-Lemma read_dur_of_dur us : (us mod 1000000 =? 0)%Z = true ->
-  read_dur (dur_encode us) = Ok (VDur us) /\ not_tf (dur_encode us) = true.
+Lemma read_dur_of_dur us : read_dur (dur_encode us) = Ok (VDur us) /\ not_tf (dur_encode us) = true.
 Proof.
-  intros H. unfold read_dur, read_dur_gen. rewrite dur_decode_encode, trunc_whole by exact H. split; [reflexivity|].
+  unfold read_dur, read_dur_gen. rewrite dur_decode_encode. split; [reflexivity|].
   unfold dur_encode. destruct (us <? 0)%Z; reflexivity.
 Qed.
 
@@ -244,7 +237,7 @@ Proof.
     + exists (e_date (datetime_encode d)). eexists. split; [reflexivity|]. split; [|exact S]. unfold model_get. rewrite get_cv_date. exact Hr.
     + exists (e_meta t_date (datetime_encode d)). eexists. split; [reflexivity|]. split; [|exact S]. unfold model_get. rewrite get_meta_date. exact Hr.
   - (* timedelta *)
-    cbn [in_domain] in Hd. destruct (read_dur_of_dur us Hd) as (Hr & Hnt).
+    destruct (read_dur_of_dur us) as (Hr & Hnt).
     assert (S : same_value (VDur us) (VDur us) = true) by (cbn [same_value]; apply Z.eqb_refl).
     destruct s, g; try discriminate.
     + exists (e_time (dur_encode us)). eexists. split; [reflexivity|]. split; [|exact S]. unfold model_get. rewrite get_et_time by exact Hnt. exact Hr.
